@@ -60,8 +60,12 @@ func quotes(ss []string) string {
 }
 
 func sortedQuotes(ss []string) string {
-	sort.Strings(ss)
-	return quotes(ss)
+	// Do not sort the given slice in place. The slice may be shared (e.g. values of AllWebhookTypes
+	// or configuration variables in Config) and may be read by other goroutines at the same time.
+	sorted := make([]string, len(ss))
+	copy(sorted, ss)
+	sort.Strings(sorted)
+	return quotes(sorted)
 }
 
 func quotesAll(sss ...[]string) string {
